@@ -749,8 +749,13 @@ class RefResolver(object):
         """
         Resolve the given reference.
         """
-        url = self._urljoin_cache(self.resolution_scope, ref)
-        return url, self._remote_cache(url)
+        try:
+            url = self._urljoin_cache(self.resolution_scope, ref)
+            return url, self._remote_cache(url)
+        except ValueError as exc:
+            # Not a URI reference at all (e.g. an unterminated IPv6 host,
+            # "http://["): it cannot be joined or looked up.
+            raise exceptions.RefResolutionError(exc)
 
     def resolve_from_url(self, url):
         """
